@@ -9,6 +9,7 @@ package service
 // the two ends of the wire, and at mutex operations.
 
 import (
+	"github.com/orda-io/orda/client/pkg/errors"
 	"github.com/orda-io/orda/client/pkg/model"
 	"github.com/orda-io/orda/client/pkg/orda"
 	"github.com/orda-io/orda/client/pkg/vf"
@@ -108,4 +109,38 @@ func VF_C13_TopicRefused() {
 	vf.Assert(b.cli.Sync() == nil, "C16 the client remains usable")
 	vf.Quiesce()
 	vf.Assert(b.cnt.Get() == 111 && a.cnt.Get() == 111, "C05 an explicit sync brings the client up to date")
+}
+
+// VF_C18_JoinRace (C18; interleaving): the moment a realtime client reports that
+// its first sync is complete (state handler: subscribed), another realtime client
+// issues a local operation.  From then on nobody calls Sync.  Both converge:
+// whatever a client still has to do to hear about later pushes must be done by
+// the time it reports the first sync as complete.
+func VF_C18_JoinRace() {
+	vf.Preemptions(1)
+	w := vfNewWorld()
+	br := &vfBroker{}
+	w.mq.broker = br
+	w.seedCollection(vfCol, 1)
+	a, b := w.newRealtimePeer("a", vfCUIDx, br), w.newRealtimePeer("b", vfCUIDy, br)
+	a.cnt = a.cli.CreateCounter(vfKey, a.handlers())
+	vf.Quiesce()
+	joined := make(chan bool, 4)
+	h := orda.NewHandlers(
+		func(dt orda.Datatype, old, new model.StateOfDatatype) {
+			if new == model.StateOfDatatype_SUBSCRIBED {
+				joined <- true
+			}
+		},
+		func(dt orda.Datatype, opList []interface{}) {},
+		func(dt orda.Datatype, errs ...errors.OrdaError) { b.errs += len(errs) },
+	)
+	b.cnt = b.cli.SubscribeCounter(vfKey, h)
+	<-joined
+	_, _ = a.cnt.IncreaseBy(1)
+	vf.Quiesce()
+	vf.Reach("settled")
+	_, _, _, pa := orda.VFSyncState(a.cnt)
+	vf.Assert(pa == 0, "C18 every local operation of a realtime client is pushed without a Sync call")
+	vf.Assert(a.cnt.Get() == 1 && b.cnt.Get() == 1, "C18 a client that has reported its first sync as complete hears about every later push")
 }
